@@ -74,6 +74,61 @@ def _extra_worker(job):
                 'error': f'extra check crash: {type(e).__name__}: {e}', 'trace': traceback.format_exc()[-2000:]}
 
 
+
+def _child(conn, kind, job):
+    res = _worker(job) if kind == 'contract' else _extra_worker(job)
+    try:
+        conn.send(res)
+    finally:
+        conn.close()
+
+
+def _run_tasks(tasks, nproc, deadline):
+    """one forked process per task, at most nproc at a time, each under a HARD deadline: z3's nonlinear engine does
+    not always poll its own timeout (seen spinning for 20 minutes on a 20 s budget), and nothing inside the process can
+    interrupt it.  A task killed at its deadline is reported as a checker fault for that function ('nothing
+    concluded'); everything the other tasks found is still reported.  On the unchanged tree the longest task takes
+    about two minutes."""
+    ctx = mp.get_context('fork')
+    # long poles first
+    def prio(t):
+        name = str(t[1][0]) + str(t[1][1])
+        return 0 if ('_integrate' in name or 'should_record' in name or 'init_' in name or 'table_band' in name) else 1
+    queue = sorted(tasks, key=prio)
+    running, out = [], []
+    while queue or running:
+        while queue and len(running) < nproc:
+            kind, job = queue.pop(0)
+            pc, cc = ctx.Pipe(duplex=False)
+            pr = ctx.Process(target=_child, args=(cc, kind, job), daemon=True)
+            pr.start()
+            cc.close()
+            running.append((pr, pc, kind, job, time.time()))
+        for r in running[:]:
+            pr, pc, kind, job, ts = r
+            name = f'{job[0]}' + (f'[{job[1]}]' if kind == 'contract' else f'.{job[1]}')
+            done = None
+            if pc.poll():
+                try:
+                    done = pc.recv()
+                except (EOFError, OSError):
+                    done = {'contract': name, 'instance': '', 'obligations': [], 'error': 'worker died without a result'}
+            elif not pr.is_alive():
+                done = {'contract': name, 'instance': '', 'obligations': [], 'error': 'worker died without a result'}
+            elif time.time() - ts > deadline:
+                pr.kill()
+                done = {'contract': name, 'instance': '', 'obligations': [],
+                        'error': f'not finished within the hard per-function deadline of {deadline} s (a solver call '
+                                 f'ignoring its timeout, or a proof lost on many paths); nothing is concluded for this '
+                                 f'function from this run'}
+            if done is not None:
+                out.append(done)
+                running.remove(r)
+                pr.join(timeout=5)
+                pc.close()
+        time.sleep(0.02)
+    return out
+
 def load_known():
     p = os.path.join(VERIF, 'known_findings.json')
     if not os.path.exists(p):
@@ -102,24 +157,8 @@ def run_property(pid, tier, seed, jobs=None):
     nproc = jobs or min(16, os.cpu_count() or 4)
     results = list(bind_errors)
     if work or extras:
-        ctx = mp.get_context('fork')
-        # hard budget for the whole pool: a solver call that ignores its own timeout must not hang the check.  Tasks
-        # that have not finished by then are reported as checker faults; what the finished ones found is still reported
-        budget = 2400 if tier == 'quick' else 14400
-        with ctx.Pool(nproc, maxtasksperchild=8) as pool:
-            pending = [(('contract', w), pool.apply_async(_worker, (w,))) for w in work] + \
-                      [(('extra', e), pool.apply_async(_extra_worker, (e,))) for e in extras]
-            for (kind, job), ar in pending:
-                left = budget - (time.time() - t0)
-                try:
-                    results.append(ar.get(timeout=max(1.0, left)))
-                except mp.TimeoutError:
-                    name = f'{job[0]}[{job[1]}]' if kind == 'contract' else f'{job[0]}.{job[1]}'
-                    results.append({'contract': name, 'instance': '', 'obligations': [],
-                                    'error': f'not finished within the hard budget of {budget} s for the whole check (a solver '
-                                             f'call ignoring its timeout, or a proof lost on many paths); nothing is concluded '
-                                             f'for this function from this run'})
-            pool.terminate()
+        results += _run_tasks([('contract', w) for w in work] + [('extra', e) for e in extras], nproc,
+                              deadline=600 if tier == "quick" else 3600)
     return finish(pid, pmod, tier, seed, results, time.time() - t0)
 
 
